@@ -59,7 +59,6 @@ REG = {
         "message-length-0": {"hex": "01000000" + "80000101" + "00000000" * 3},
         "message-length-8": {"hex": "01000008" + "80000101" + "00000000" * 3 + "0000010840000009" + "61000000"},
         "one-byte": {"hex": "01"},
-        "uri-not-utf8": {"hex": "01000024c000013c0100002300000001000000020000012440000010ff616161"},
         "nest-500": {"base": None, "mut": {"k": "nest", "depth": 500, "code": 279, "vendor": None}},
         "live-misaddressed": {"kind": "live", "role": "client", "state": "open", "input": "misaddressed", "mut": None, "cuts": [], "hbh": 9},
         "live-unknown-enumerator": {"kind": "live", "role": "server", "state": "open", "input": "unknown-enumerator", "mut": None, "cuts": [7, 30], "hbh": 9},
@@ -73,17 +72,12 @@ REG = {
                           "lines": False, "consumers_first": True, "holds": []},
     },
     "C05": {
-        "tiny-partial-writes": {"role": "server", "subs": [{"api": "send_message", "msgs": [{"kind": "req", "size": 1}, {"kind": "req", "size": 100},
-                                {"kind": "ans", "size": 0}]}], "pw": "tiny", "sizes": [2, 1, 1, 7, 3, 1], "inbound": [], "sched": [], "lines": False, "holds": []},
-        "inbound-drops-outbound": {"role": "client", "subs": [{"api": "send_message", "msgs": [{"kind": "ans", "size": 5}, {"kind": "req", "size": 5}]}],
-                                   "pw": "full", "sizes": [], "inbound": ["dwr", "dwr", "app"], "sched": [], "lines": False, "holds": []},
         "batch-limit-order": {"role": "client", "subs": [{"api": "send_message", "msgs": [{"kind": "req", "size": 90000}, {"kind": "req", "size": 90000},
                               {"kind": "req", "size": 90000}, {"kind": "ans", "size": 1}]}], "pw": "full", "sizes": [], "inbound": [], "sched": [],
                               "lines": False, "holds": []},
     },
     "C06": {
         "misaddressed-kills-psm": {"role": "client", "napps": 1, "backlog": 0, "events": [ev("ack"), ev("cea"), ev("misaddressed-req"), ev("dwr", hbh=7, e2e=8)]},
-        "stop-with-queued-inbound": {"role": "server", "napps": 1, "backlog": 0, "events": [ev("cer"), ev("app-req-pair-dwr"), ev("local-stop"), ev("dpa")]},
     },
     "C08": {
         "refused": {"role": "client", "point": "connecting", "cause": "refused", "sched": [], "lines": False, "n_queued": 1, "holds": []},
@@ -92,15 +86,10 @@ REG = {
         "fin-before-cer": {"role": "server", "point": "server-wait-cer", "cause": "peer-fin", "sched": [], "lines": False, "n_queued": 1, "holds": []},
         "blocked-consumer-local-close": {"role": "client", "point": "open-consumer-blocked", "cause": "local-close", "sched": [], "lines": False, "n_queued": 1, "holds": []},
         "queued-inbound-local-close": {"role": "client", "point": "open-inbound-queued", "cause": "local-close", "sched": [], "lines": False, "n_queued": 3, "holds": []},
-        "rst-with-queued-outbound": {"role": "server", "point": "open-outbound-queued", "cause": "peer-rst", "sched": [], "lines": False, "n_queued": 4, "holds": []},
     },
     "C14": {
         "answer-before-registration": {"k": 1, "hbh": [0x01020304], "perm": [0], "delays": [0.0], "extras": [], "sched": [], "lines": False,
                                        "stagger": 0.0, "hold": 0},
-    },
-    "C15": {
-        "two-threads-same-value": {"kind": "threads", "nthreads": 2, "per": 1, "source": [6, 6, 5, 5, 7, 7], "kinds": ["req", "req"],
-                                   "sched": [0, 0, 0, 0, 0, 0, 0, 0, 0, 0, 1, 0, 0, 0, 0, 0, 0, 0, 0, 0, 0, 1] + [0] * 60},
     },
     "C12": {
         "5012-e-flag": {"req": {"kind": "typed", "lib": "etsi_3gpp_s6a", "cls": "UpdateLocationRequest", "extras": [], "omit": None,
